@@ -50,6 +50,45 @@ pub fn generate(s: &mut Session, tier: &str, rng: &mut Rng) {
         }
         s.mark_nontrivial();
     }
+    // ---- codec level: two users whose udp sessions carry the same session id, interleaved through the shared cache:
+    // each datagram is decoded exactly as it is when that user's flow runs alone
+    for (cipher, keylen) in [("2022-blake3-aes-128-gcm", 16usize), ("2022-blake3-aes-256-gcm", 32)] {
+        s.begin_case(&format!("udp-same-session-id:{}", cipher));
+        let psk = Base64::encode_string(&rng.bytes(keylen));
+        let (ka, kb) = (Base64::encode_string(&rng.bytes(keylen)), Base64::encode_string(&rng.bytes(keylen)));
+        let us = s.fresh("us");
+        s.run(&format!("ssu.server {} cipher={} password={} users=alice:{};bob:{}", us, cipher, psk, ka, kb));
+        let csid = 1 + rng.below(1 << 50);
+        let mut clients = vec![];
+        for (name, k) in [("alice", &ka), ("bob", &kb)] {
+            let uc = s.fresh("uc");
+            s.run(&format!("ssu.client {} cipher={} password={}:{}", uc, cipher, psk, k));
+            s.run(&format!("ssu.setid {} csid={}", uc, csid));
+            clients.push((name, uc));
+        }
+        // datagrams built by the Spec-side crafter (an encoder outside this process' cipher cache), then the
+        // implementation's own clients
+        let mut cr = crate::craft::Crafter::new();
+        for round in 0..if thorough { 12 } else { 4 } {
+            for (name, k) in [("alice", &ka), ("bob", &kb)] {
+                let Some(cr) = cr.as_mut() else { break };
+                let body = [vec![0u8], crate::stream::now_secs().to_be_bytes().to_vec(), vec![0, 0], vec![1, 1, 2, 3, 4, 0, 53], rng.bytes(8)].concat();
+                let w = cr.ask(&format!("craft.ssu cipher={} password={} ipsk={} sid={} pid={} rnd=- body={}", cipher, k, psk, csid, round + 1, hex(&body)));
+                let r = crate::c02::timed(s, &format!("ssu.sdec {} {}", us, w));
+                if !r.starts_with("ok ") || !r.contains(&format!(" user={} ", name)) {
+                    s.oracle_fail(&format!("udp-same-session-id:{}", cipher), &format!("round {}: {}'s datagram is not decoded as it is alone when another user uses the same session id: {}", round, name, &r[..r.len().min(50)]));
+                }
+            }
+            for (name, uc) in &clients {
+                let w = crate::c02::timed(s, &format!("ssu.cenc {} addr=4:01020304:53 payload={}", uc, hex(&rng.bytes(8))));
+                let r = crate::c02::timed(s, &format!("ssu.sdec {} {}", us, w));
+                if !r.starts_with("ok ") || !r.contains(&format!(" user={} ", name)) {
+                    s.oracle_fail(&format!("udp-same-session-id:{}", cipher), &format!("round {}: {}'s datagram is not decoded as it is alone when another user uses the same session id: {}", round, name, &r[..r.len().min(50)]));
+                }
+            }
+        }
+        s.mark_nontrivial();
+    }
     // ---- system level: alone, then all at once
     let all = protocol_ciphers(rng);
     let picks: Vec<Cfg> = if thorough { all } else { all.into_iter().filter(|c| matches!((c.protocol, c.cipher, c.users.as_str()), ("shadowsocks", "chacha20-ietf-poly1305", _) | ("shadowsocks", "2022-blake3-chacha20-poly1305", _) | ("shadowsocks", "2022-blake3-aes-256-gcm", "alice") | ("vmess", "aes-128-gcm", _) | ("trojan", _, _)) || c.users.starts_with("alice") && c.cipher.ends_with("256-gcm")).collect() };
